@@ -384,6 +384,62 @@ fn history_conc(seed: u64, ops: usize, nworkers: usize) {
     QueueHandle::run_explicit_merge();
 }
 
+struct SendPtr(*const H);
+unsafe impl Send for SendPtr {}
+
+/// Targeted schedule family: the owner drops its *last* owner-side reference (biased counter 1 -> 0, which merges
+/// into the shared word with a compare-exchange loop) while another thread, which obtained its reference by
+/// cloning on its own side, clones and drops in a tight loop (so the shared word changes under the owner's
+/// feet). Asserted per round: the payload is intact whenever the helper touches it, and it is destroyed exactly
+/// once after both sides are done.
+fn history_race(seed: u64, rounds: usize, spins: usize) {
+    let (to_helper, from_owner) = channel::<Option<SendPtr>>();
+    let (to_owner, from_helper) = channel::<u8>();
+    let helper = steel_rc::with_explicit_merge(move || {
+        let mut r = Rng(seed | 1);
+        while let Ok(Some(p)) = from_owner.recv() {
+            // SAFETY: the owner keeps its handle alive until we acknowledge the clone
+            let mine: H = unsafe { (&*p.0).clone() };
+            to_owner.send(1).unwrap();
+            let n = 1 + r.below(spins.max(1));
+            for _ in 0..n {
+                let c = mine.clone();
+                c.check("race-helper");
+                drop(c);
+            }
+            mine.check("race-helper-last");
+            drop(mine);
+            to_owner.send(2).unwrap();
+        }
+    });
+    let mut r = Rng(seed.wrapping_mul(31) | 1);
+    for _ in 0..rounds {
+        let h: H = BiasedRc::new(Payload::new());
+        let id = h.id;
+        // sometimes the owner holds a second owner-side reference that it drops first
+        let extra = if r.below(3) == 0 { Some(h.clone()) } else { None };
+        to_helper.send(Some(SendPtr(&h as *const H))).unwrap();
+        assert_eq!(from_helper.recv().unwrap(), 1);
+        drop(extra);
+        for _ in 0..r.below(4) {
+            std::hint::spin_loop();
+        }
+        drop(h);
+        assert_eq!(from_helper.recv().unwrap(), 2);
+        QueueHandle::run_explicit_merge();
+        let n = DROPS.lock().unwrap()[id];
+        if n != 1 {
+            violation(if n == 0 {
+                format!("payload {id} was never destroyed although every reference was dropped (race round)")
+            } else {
+                format!("payload {id} destroyed more than once (race round: {n} times)")
+            });
+        }
+    }
+    to_helper.send(None).unwrap();
+    let _ = helper.join();
+}
+
 fn main() {
     let a: Vec<String> = std::env::args().collect();
     let seed: u64 = a.get(1).and_then(|s| s.parse().ok()).unwrap_or(1);
@@ -397,6 +453,10 @@ fn main() {
         let workers = 1 + (s as usize % 2);
         if mode == "seq" || mode == "both" {
             history_seq(s, ops, workers);
+            total_ops += ops;
+        }
+        if mode == "race" {
+            history_race(s ^ 0x5EED, ops, if cfg!(miri) { 6 } else { 3000 });
             total_ops += ops;
         }
         if mode == "conc" || mode == "both" {
